@@ -74,8 +74,11 @@ Definition ePc (c : pc) : list Z := pc_rule c :: eLoc (pc_core c) ++ [pc_first c
 
 (* ---------- get_ruleset / Ruleset / create_rules: rule objects are shared BY REFERENCE ----------
    antismash/detection/hmm_detection/__init__.py:get_ruleset keeps a module-level cache of the
-   rulesets it has handed out; Ruleset.__post_init__ applies the distance multipliers IN PLACE to
-   the DetectionRule objects it is given and copy_with_replacements passes the same objects on.
+   rulesets it has handed out; Ruleset.__post_init__ (as repaired for C07-K2 / C01-H1) applies the
+   distance multipliers to COPIES of the DetectionRule objects it is given (copy.copy: a new object
+   per rule) and remembers the objects as given; copy_with_replacements hands the new instance the
+   remembered objects in place of this instance's own scaled copies.  The parser still scales the
+   objects it creates in place (create_rules(..., multipliers)).
    So the model has an object store: a rule object is an address, [h_get] reads it, [h_set]
    mutates it, [h_new] allocates.  Names, categories, strictness levels are numbered. *)
 Record rule := mkRule { r_name : Z; r_cat : Z; r_cutoff : Z; r_nb : Z }.
@@ -116,27 +119,48 @@ Fixpoint parse_rules (m : mults) (base : list rule) (seen : list Z) (h : heap) :
          end
   end.
 
-(* Ruleset.__post_init__: rule names must be unique (ValueError); then
-   for rule in self._rules_by_name.values(): rule.cutoff = int(rule.cutoff * multipliers.cutoff) ...
-   - an update of the objects themselves.  (The checks on profiles and equivalence groups do not
-   depend on the rules and are not modelled.) *)
-Definition post_init (m : mults) (refs : list nat) (h : heap) : res heap :=
-  if nodupb (map r_name (deref h refs))
-  then Ok (fold_left (fun h' i => h_set h' i (scale_rule m (h_get h' i))) refs h)
-  else Err E_Value.
+(* Ruleset.__post_init__:
+     self._unscaled_rules = {rule.name: rule for rule in self._rules}        (the objects as given)
+     for rule in self._rules: rule = copy.copy(rule); rule.cutoff = int(rule.cutoff * multipliers.cutoff) ...
+     self._rules = tuple(scaled_rules)
+   - one NEW object per rule given, no update of any existing object; then rule names must be
+   unique (ValueError).  (The checks on profiles and equivalence groups do not depend on the rules
+   and are not modelled.) *)
+Fixpoint scaled_copies (m : mults) (refs : list nat) (h : heap) : heap * list nat :=
+  match refs with
+  | [] => (h, [])
+  | i :: rest =>
+    let (h1, j) := h_new h (scale_rule m (h_get h i)) in
+    let (h2, out) := scaled_copies m rest h1 in (h2, j :: out)
+  end.
+Definition post_init (m : mults) (refs : list nat) (h : heap) : res (heap * list nat) :=
+  let (h', own) := scaled_copies m refs h in
+  if nodupb (map r_name (deref h' own)) then Ok (h', own) else Err E_Value.
 
-Record ruleset := mkRs { rs_rules : list nat; rs_mults : mults }.
+(* a Ruleset: the rule objects it detects with (its scaled copies), the objects it was given, in the
+   same order (_unscaled_rules), and its multipliers *)
+Record ruleset := mkRs { rs_rules : list nat; rs_given : list nat; rs_mults : mults }.
 Definition ruleset_init (refs : list nat) (m : mults) (h : heap) : res (heap * ruleset) :=
-  match post_init m refs h with Ok h' => Ok (h', mkRs refs m) | Err k => Err k end.
-(* Ruleset.from_files: create_rules(..., multipliers) and then cls(..., multipliers=multipliers) *)
+  match post_init m refs h with Ok (h', own) => Ok (h', mkRs own refs m) | Err k => Err k end.
+(* Ruleset.from_files: create_rules(...) WITHOUT multipliers and then cls(..., multipliers=multipliers) *)
 Definition from_files (base : list rule) (m : mults) (h : heap) : res (heap * ruleset) :=
-  match parse_rules m base [] h with
+  match parse_rules unit_mults base [] h with
   | Ok (h1, refs) => ruleset_init refs m h1
   | Err k => Err k
   end.
-(* dataclasses.replace(self, _rules=..., multipliers=...): a new Ruleset over the SAME rule objects *)
-Definition copy_with_replacements (_ : ruleset) (refs : list nat) (m : mults) (h : heap) : res (heap * ruleset) :=
-  ruleset_init refs m h.
+(* copy_with_replacements(rules=..., multipliers=...):
+     kwargs["_rules"] = tuple(self._unscaled_rules[rule.name] if self._rules_by_name.get(rule.name) is rule else rule ...)
+   - a rule object OF THIS INSTANCE is replaced by the object this instance was given for it (the
+   names of an instance are unique, so the lookup by name and identity is the lookup of the object's
+   position among the instance's rules), any other object is passed on as it is; then
+   dataclasses.replace builds a new Ruleset (__post_init__ again) *)
+Fixpoint given_of (own given : list nat) (i : nat) : nat :=
+  match own, given with
+  | o :: own', g :: given' => if Nat.eqb i o then g else given_of own' given' i
+  | _, _ => i
+  end.
+Definition copy_with_replacements (rs : ruleset) (refs : list nat) (m : mults) (h : heap) : res (heap * ruleset) :=
+  ruleset_init (map (given_of (rs_rules rs) (rs_given rs)) refs) m h.
 
 (* the options get_ruleset reads: strictness, limit_to_rules / limit_to_categories (as the tuples
    of the sets built from them), taxon == "fungi", the two fungal multipliers *)
@@ -225,13 +249,20 @@ Definition observe (files : list (list rule)) (qs : list request) : list Z :=
            | Err e => [1; e]
            end) (combine qs outs).
 
-(* the public constructors used directly (correspondence of from_files / copy_with_replacements,
-   including the behaviour recorded as finding C07-K2): a sequence of
+(* the public constructors used directly (correspondence of Ruleset(...), from_files and
+   copy_with_replacements; before the repair of C07-K2 these gave history-dependent distances): a
+   sequence of
      Ruleset.from_files(files of a strictness, multipliers=m)
-     made[j].copy_with_replacements(rules=[those named], multipliers=m)   (or without multipliers=) *)
+     made[j].copy_with_replacements(rules=[those named], multipliers=m)   (or without multipliers=)
+     Ruleset(tuple(those named of made[j].rules), ..., multipliers=m)     (the constructor itself, over
+                                                      the rule objects another ruleset detects with) *)
 Inductive apiop :=
 | OpFromFiles (s : Z) (m : mults)
-| OpCopy (j : Z) (names : list Z) (keep : bool) (m : mults).
+| OpCopy (j : Z) (names : list Z) (keep : bool) (m : mults)
+| OpInit (j : Z) (names : list Z) (m : mults).
+
+Definition named_refs (h : heap) (names : list Z) (refs : list nat) : list nat :=
+  match names with [] => refs | _ => filter (fun i => mem (r_name (h_get h i)) names) refs end.
 
 Fixpoint run_api (files : list (list rule)) (h : heap) (made : list (res ruleset)) (ops : list apiop)
   : heap * list (res ruleset) :=
@@ -245,13 +276,42 @@ Fixpoint run_api (files : list (list rule)) (h : heap) (made : list (res ruleset
   | OpCopy j names keep m :: rest =>
     match nth_error made (Z.to_nat j) with
     | Some (Ok rs) =>
-      let refs := match names with [] => rs_rules rs
-                  | _ => filter (fun i => mem (r_name (h_get h i)) names) (rs_rules rs) end in
-      match copy_with_replacements rs refs (if keep then rs_mults rs else m) h with
+      match copy_with_replacements rs (named_refs h names (rs_rules rs)) (if keep then rs_mults rs else m) h with
       | Ok (h1, rs') => run_api files h1 (made ++ [Ok rs']) rest
       | Err e => run_api files h (made ++ [Err e]) rest
       end
     | _ => run_api files h (made ++ [Err E_Index]) rest
+    end
+  | OpInit j names m :: rest =>
+    match nth_error made (Z.to_nat j) with
+    | Some (Ok rs) =>
+      match ruleset_init (named_refs h names (rs_rules rs)) m h with
+      | Ok (h1, rs') => run_api files h1 (made ++ [Ok rs']) rest
+      | Err e => run_api files h (made ++ [Err e]) rest
+      end
+    | _ => run_api files h (made ++ [Err E_Index]) rest
+    end
+  end.
+
+(* specification of such a sequence: for every ruleset made, the rules it was GIVEN (for from_files
+   and every copy derived from it: the selected rules of the files with the distances as written;
+   for the bare constructor: the rules the other ruleset detects with) and its own multipliers *)
+Definition named_rules (names : list Z) (l : list rule) : list rule :=
+  match names with [] => l | _ => filter (fun r => mem (r_name r) names) l end.
+Fixpoint api_spec (files : list (list rule)) (made : list (option (list rule * mults))) (ops : list apiop)
+  : list (option (list rule * mults)) :=
+  match ops with
+  | [] => made
+  | OpFromFiles s m :: rest => api_spec files (made ++ [Some (rule_files files s, m)]) rest
+  | OpCopy j names keep m :: rest =>
+    match nth_error made (Z.to_nat j) with
+    | Some (Some (w, mj)) => api_spec files (made ++ [Some (named_rules names w, if keep then mj else m)]) rest
+    | _ => api_spec files (made ++ [None]) rest
+    end
+  | OpInit j names m :: rest =>
+    match nth_error made (Z.to_nat j) with
+    | Some (Some (w, mj)) => api_spec files (made ++ [Some (named_rules names (map (scale_rule mj) w), m)]) rest
+    | _ => api_spec files (made ++ [None]) rest
     end
   end.
 
@@ -260,6 +320,8 @@ Definition dApiOp : dec apiop := fun l =>
   | 0 :: r => match dPair dZ dMults r with Some ((s, m), r') => Some (OpFromFiles s m, r') | None => None end
   | 1 :: r => match dPair (dPair dZ (dList dZ)) (dPair dBool dMults) r with
               | Some ((j, ns, (k, m)), r') => Some (OpCopy j ns k m, r') | None => None end
+  | 2 :: r => match dPair (dPair dZ (dList dZ)) dMults r with
+              | Some ((j, ns, m), r') => Some (OpInit j ns m, r') | None => None end
   | _ => None
   end.
 Definition eMults (m : mults) : list Z := [fst (m_cutoff m); snd (m_cutoff m); fst (m_nb m); snd (m_nb m)].
